@@ -86,6 +86,10 @@ def check(rep, ctx):
         rep.check(R_LOOP, False, construct=l["function"], stmt=l["stmt"],
                   message="the loop keeps reading until it has enough bytes but never tests the chunk it got: at end of stream read() returns b'' "
                           "forever and the decoder spins instead of raising BufferUnderflow", file=l["file"], line=l["line"])
+    for l in scan.silent_eof_exits(ctx, ["kio.serial.readers", "kio.serial._parse", "kio.records.readers"]):
+        rep.check(R_LOOP, False, construct=l["function"], stmt=l["stmt"],
+                  message="at end of stream the chunk loop is left without raising, and the length collected is never compared with the size "
+                          "asked for: a truncated input yields a short value instead of BufferUnderflow", file=l["file"], line=l["line"])
     rep.count(R_LOOP, 1, instance="scan")
     xr = [a for a in eng["atoms"] if a["kind"] == "xread"]
     if not xr:
